@@ -312,7 +312,7 @@ PROPS = {
    parts_by_config={'default': [0] + list(range(4, 14)), 'swizzle': list(range(14)), 'intr_sse2': [0] + list(range(4, 14)), 'swizzle_intr_clang': list(range(19)), 'quat_ctor_xyzw': [0], 'quat_wxyz': [0]},   # the two quaternion-order macros: part 0 holds the quaternion constructors   # the other parts are empty in that configuration
    flags=_C17_FLAGS,
    technique='exhaustive enumeration of the program space: every 2-/3-/4-letter swizzle name over xyzw, rgba, stpq for source lengths 2-4 in the three implementations (member functions, operator/union proxies on packed and aligned types, gtx free functions), all write sequences over duplicate-free names up to a depth against an array model, and every constructor signature of vec1-4 / mat / qua enumerated from the declared overload shapes',
-   text='Reads: the index tuple is derived from the NAME (letter -> index) by macro pasting, independent of GLM; every valid name x tag patterns, compared bit for bit. Writes (explicit-state): all sequences of 14 write forms (=vec, =scalar, += -= *= /=, cross-swizzle and self-aliasing forms) over duplicate-free names, array reference model after every step, exactly the named components change. Constructors: 1236 (2598 with aligned types) vector signatures per destination type x value patterns that make static_cast observable, all 49 (U,T) cross-type pairs, cross-qualifier, matrix diagonal/scalars/columns/cross-type, quaternion forms; four build configurations (default, GLM_FORCE_SWIZZLE, intrinsics, operator swizzles).',
+   text='Reads: the index tuple is derived from the NAME (letter -> index) by macro pasting, independent of GLM; every valid name x tag patterns, compared bit for bit. Writes (explicit-state): all sequences of 14 write forms (=vec, =scalar, += -= *= /=, cross-swizzle and self-aliasing forms) over duplicate-free names, array reference model after every step, exactly the named components change. Constructors: 1236 (2598 with aligned types) vector signatures per destination type x value patterns that make static_cast observable, all 49 (U,T) cross-type pairs, cross-qualifier, matrix diagonal/scalars/columns/cross-type, quaternion forms; four build configurations (default, GLM_FORCE_SWIZZLE, intrinsics, operator swizzles). Quaternion constructors also under GLM_FORCE_QUAT_DATA_XYZW and _WXYZ.',
    rule='names: 28/117/336 per source length and letter set; write sequences depth <=3 (L2), <=2 (L3, L4) quick, L3 depth 3 thorough; constructor signatures enumerated by templates from the overload shapes; inadmissible (pattern, U, T) conversions are counted trivial.'),
  'C03': dict(run=run_c03, src='drivers/c03.cpp', level='exploration', part_list=[0, 1, 2, 3, 4, 5, 6, 7, 8, 9, 10, 11, 13],   # part 12 = raw glm_* kernels that no vec/mat/quat operation reaches: outside the statement
    flags=['-DC03_TRY_ALL'], cap=20000, baseline='pure', baseline_by_config={'intr_sse2_clang': 'pure_clang'},
@@ -328,13 +328,13 @@ PROPS = {
    table_by_config_quick={'ubsan_sse2_defaligned': _C20_ALIGNED_Q, 'ubsan_swizzle_intr': [('drivers/c17.cpp', [7, 9, 11, 16], [], _C17_FLAGS)]},
    table_by_config_thorough={'ubsan_sse2_defaligned': _C20_ALIGNED_T, 'ubsan_avx2_defaligned': _C20_ALIGNED_T, 'ubsan_swizzle_intr': [('drivers/c17.cpp', list(range(19)), [], _C17_FLAGS)]},
    technique='exhaustive enumeration of the other properties\' input domains (restricted by each function\'s documented precondition) through clang UndefinedBehaviorSanitizer + AddressSanitizer instrumented builds of the same drivers; the sanitizer runtime is the oracle and its report hook attributes every report to the (operation, input) being evaluated',
-   text='The drivers of the other properties are rebuilt with -fsanitize=undefined,float-cast-overflow,address -fsanitize-recover=all and their domains are enumerated again (domains larger than the cap on the sub-lattice of every s-th index); the weak hooks __ubsan_on_report / __asan_on_error record kind, file, line and the current (op, input), so every distinct undefined operation inside a glm/ source file within a documented domain becomes a replayable violation. Known findings are keyed by (file, line, kind).',
+   text='The drivers of the other properties are rebuilt with -fsanitize=undefined,float-cast-overflow,address -fsanitize-recover=all and their domains are enumerated again (domains larger than the cap on the sub-lattice of every s-th index); the weak hooks __ubsan_on_report / __asan_on_error record kind, file, line and the current (op, input), so every distinct undefined operation inside a glm/ source file within a documented domain becomes a replayable violation. Known findings are keyed by (file, line, kind). Sanitizer builds also with aligned SIMD types (SSE2, AVX2) and with operator swizzles, where the vector under test ends an exactly-sized heap block so that any access past the object is reported.',
    rule='operation table x documented-precondition filter of each driver (out-of-domain inputs are skipped before GLM is called) x sanitizer configurations {clang pure, clang AVX2 in thorough}; evaluations are instrumented executions.'),
  'C16': dict(src='drivers/c16.cpp', level='exploration', parts=6, flags=['-O0'],
    configs=['default', 'swizzle', 'xyzw_only', 'size_t_length', 'quat_wxyz', 'ctor_init', 'cxx98', 'intr_sse2', 'intr_avx', 'intr_avx2', 'intr_avx2_defaligned', 'swizzle_intr', 'intr_sse2_wxyz', 'intr_avx2_wxyz', 'intr_sse2_clang'],
    configs_quick=['default', 'xyzw_only', 'size_t_length', 'quat_wxyz', 'intr_sse2', 'intr_avx2_defaligned', 'swizzle_intr', 'intr_sse2_wxyz'],   # *_wxyz: the quaternion order switch combined with SIMD storage
    technique='exhaustive enumeration of the program space: every vec<L,T,Q>, mat<C,R,T,Q>, qua<T,Q> instantiation (L 1..4, C,R 2..4, 11 element types, packed and - with intrinsics - aligned qualifiers) x 15 build configurations, each layout fact observed by executing the generated program and compared with the documented contract',
-   text='For every instantiation and configuration: sizeof, alignof, component addresses (&v[i] == &v.x + i, column addresses), named-member order incl. quaternion x,y,z,w / w,x,y,z, value_ptr aliasing value_ptr(m)[c*R+r] == m[c][r], byte image through value_ptr vs operator[], make_vec/make_mat/make_quat round trips, length() value and type (int / size_t), trivially-copyable round trip. Facts are observed at run time, so one wrong fact does not hide the rest; 462 (packed) or 924 (with aligned types) instantiations per configuration, complete.',
+   text='For every instantiation and configuration: sizeof, alignof, component addresses (&v[i] == &v.x + i, column addresses), named-member order incl. quaternion x,y,z,w / w,x,y,z, value_ptr aliasing value_ptr(m)[c*R+r] == m[c][r], byte image through value_ptr vs operator[], make_vec/make_mat/make_quat round trips, length() value and type (int / size_t), trivially-copyable round trip. Facts are observed at run time, so one wrong fact does not hide the rest; 462 (packed) or 924 (with aligned types) instantiations per configuration, complete. A table of 804 alias names of glm/fwd.hpp and gtc/type_aligned.hpp, generated from the naming grammar, is compared with the instantiation each name spells (is_same, sizeof, alignof); SIMD x WXYZ and clang configurations added (15 in the thorough tier).',
    rule='INSTANTIATIONS = complete table of type descriptors (kind|C|R|T|Q) per configuration; every fact op enumerates the whole table; quick and thorough are the same complete set.'),
  'C15': dict(run=run_differential, replay=replay_differential, level='exploration', src='drivers/c01.cpp', cap=20000,
    table_quick=_C15_TABLE_Q, table_thorough=_C15_TABLE_T,
@@ -342,44 +342,44 @@ PROPS = {
    configs_thorough=['cxx98', 'cxx03', 'cxx11', 'cxx14', 'cxx17', 'cxx20', 'cxx_unknown', 'inline', 'ctor_init', 'explicit_ctor', 'size_t_length', 'xyzw_only', 'swizzle', 'swizzle_intr', 'unrestricted_gentype', 'quat_wxyz', 'pure', 'compiler_unknown', 'platform_unknown', 'arch_unknown', 'O0', 'O3', 'clang_O0', 'clang_O3', 'combo_types', 'combo_env'], baseline_by_config={'clang_O0': 'clang', 'clang_O3': 'clang'},   # optimisation levels are compared within one compiler (the statement names the optimisation level, not the compiler)
    not_instantiable={'drivers/c19.cpp': {'xyzw_only': 'glm/gtx/color_space.inl and color_space_YCoCg.inl name the components .r .g .b, which GLM_FORCE_XYZW_ONLY removes: the header is ill-formed in this configuration', 'combo_types': 'contains GLM_FORCE_XYZW_ONLY (see xyzw_only)'}},
    technique='exhaustive differential exploration over the configuration lattice: the same operation table (the drivers of the other properties, with their complete quick/thorough input domains) is compiled once per non-semantic configuration and every per-operation observation digest must equal the baseline build; a differing digest is bisected to the first differing input',
-   text='Every non-semantic macro / language level / optimisation level / compiler is one point of the configuration lattice and one separate build of the same driver sources from the working tree. Each driver op accumulates a digest of every value GLM returned on every enumerated input (C01: every scalar and vector result of every function x L x T x Q; C11/C14: the std-versus-fallback sensitive functions on the float lattices; integer, packing, quaternion and geometric drivers). Digest equality with the baseline is required for every (op, configuration); results are expressed through named members so storage-order switches are compared by value.',
+   text='Every non-semantic macro / language level / optimisation level / compiler is one point of the configuration lattice and one separate build of the same driver sources from the working tree. Each driver op accumulates a digest of every value GLM returned on every enumerated input (C01: every scalar and vector result of every function x L x T x Q; C11/C14: the std-versus-fallback sensitive functions on the float lattices; integer, packing, quaternion and geometric drivers). Digest equality with the baseline is required for every (op, configuration); results are expressed through named members so storage-order switches are compared by value. A configuration built with another compiler is compared with a baseline of that compiler; a reported difference must have identical input words in both builds.',
    rule='configurations x operation table (see coverage.operation_table) x the quick (thorough) domains of those drivers; evaluations are summed over all builds; a case is non-trivial as defined by its driver.'),
  'C04': dict(src='drivers/c04.cpp', level='exploration', configs=['default', 'quat_wxyz', 'quat_ctor_xyzw', 'intr_sse2_defaligned', 'intr_avx2_defaligned_wxyz'], digest_groups=[['default', 'quat_wxyz', 'quat_ctor_xyzw']], digest_equal=['named_member_digest_float', 'named_member_digest_double'],
    technique='exhaustive enumeration of a finite rotation set (integer quaternions, icosians, axis-angle lattice, 10^-j neighbourhoods of every branch boundary and gimbal-lock set, each +-1..3 ulp) x vector lattice through every quaternion/matrix/axis-angle/Euler entry point, against a long-double Hamilton/Rodrigues reference, in both quaternion storage orders',
-   text='q*v, mat3/4_cast, quat_cast (all four largest-component branches and ties), products, angle/axis/angleAxis, eulerAngles/quat(euler), qua(u,v) incl. parallel/opposite/nearly-opposite pairs, inverse/conjugate/normalize, all 12 gtx eulerAngleABC orders + 6 two-angle forms + yawPitchRoll/orientate with extractEulerAngle round trips, dual quaternions; the same source is built with the default and the WXYZ layout and a digest of every result expressed through named members must be identical in both.',
+   text='q*v, mat3/4_cast, quat_cast (all four largest-component branches and ties), products, angle/axis/angleAxis, eulerAngles/quat(euler), qua(u,v) incl. parallel/opposite/nearly-opposite pairs, inverse/conjugate/normalize, all 12 gtx eulerAngleABC orders + 6 two-angle forms + yawPitchRoll/orientate with extractEulerAngle round trips, dual quaternions; the same source is built with the default and the WXYZ layout and a digest of every result expressed through named members must be identical in both. pow(q,y)/sqrt(q) against |q|^y (cos yt, n sin yt) incl. pow(q,0) = identity exactly, pow(q,2) = q*q, pow(q,-1) = inverse; aligned SIMD quaternions (SSE2; AVX2 with WXYZ) as further configurations.',
    rule='ROT (57 800 quick / 152 812 thorough quaternions) x VEC3L; ROT_small^2 for products; 55^3 (87^3) angle triples incl. +-pi/2 +-10^-j; NEAR_OPPOSITE pairs on both sides of the fallback threshold. Non-trivial = case inside the stated domain (unit quaternion up to rounding, non-degenerate vectors).'),
  'C08': dict(src='drivers/c08.cpp', level='exploration', configs=['default', 'lh', 'zo', 'lh_zo', 'intr_sse2_defaligned', 'intr_avx2_defaligned'], configs_quick=['default', 'lh', 'zo', 'lh_zo', 'intr_sse2_defaligned'], flags=['-DC08_HAVE_INFINITEPERSPECTIVE_LH_RH'],
    technique='exhaustive enumeration of the parameter lattice (l<r, b<t, near<far, fovy, aspect, width/height, viewports) x every builder variant in all four clip-control build configurations; oracle = the view-volume corners must map to the clip-cube corners, dispatch must be bit-identical to the selected suffixed variant',
-   text='Every ortho/frustum/perspective/perspectiveFov/infinitePerspective/tweakedInfinitePerspective variant (RH/LH x NO/ZO) maps its eight view-volume corners (infinite: near corners + depth monotone and bounded along 2^k.near) to the clip cube; perspective == symmetric frustum; perspectiveFov == perspective(w/h); in each of the four macro configurations the unsuffixed and half-suffixed builders are bit-identical to the fully suffixed variant the macros select; project/unProject/pickMatrix against the formula, mutual inverses, cube -> viewport x [0,1].',
+   text='Every ortho/frustum/perspective/perspectiveFov/infinitePerspective/tweakedInfinitePerspective variant (RH/LH x NO/ZO) maps its eight view-volume corners (infinite: near corners + depth monotone and bounded along 2^k.near) to the clip cube; perspective == symmetric frustum; perspectiveFov == perspective(w/h); in each of the four macro configurations the unsuffixed and half-suffixed builders are bit-identical to the fully suffixed variant the macros select; project/unProject/pickMatrix against the formula, mutual inverses, cube -> viewport x [0,1]. project/unProject also on extreme volumes (near,far) = (2e7,1e8) and (1e-5,1e-2), where the homogeneous w is far from 1; aligned SIMD matrix types as a further configuration.',
    rule='full product of the DESIGN section C08 parameter grids (quick) / denser grids (thorough), float and double, in each configuration; cases whose error bound cannot be formed (singular to working precision) are counted trivial.'),
  'C09': dict(src='drivers/c09.cpp', level='exploration', configs=['default', 'lh', 'zo', 'lh_zo', 'quat_wxyz', 'intr_sse2_defaligned', 'intr_avx2_defaligned_wxyz'], configs_quick=['default', 'lh', 'zo', 'lh_zo', 'quat_wxyz', 'intr_sse2_defaligned'], flags=['-DC09_RECOMPOSE_DOUBLE'],
    technique='exhaustive enumeration of base matrices x vectors x axes x angle ladders x shear parameters through every transform builder, against M * E with E built entrywise in long double; lookAt frames and TRS(+skew,+perspective) compositions through decompose/recompose; default and left-handed builds',
-   text='translate/rotate/scale/shear (fast and _slow forms), gtx transform/transform2/rotate_vector/rotate_normalized_axis/matrix_transform_2d/matrix_interpolation helpers equal M times the elementary matrix; lookAtRH/LH are rigid, send eye to 0, the view direction to -z/+z and up into the +y half-plane, and lookAt follows the configured handedness; recompose(decompose(M)) == M over rotation set x scales x translations x skews x perspective kinds with every quaternion-extraction branch reached.',
+   text='translate/rotate/scale/shear (fast and _slow forms), gtx transform/transform2/rotate_vector/rotate_normalized_axis/matrix_transform_2d/matrix_interpolation helpers equal M times the elementary matrix; lookAtRH/LH are rigid, send eye to 0, the view direction to -z/+z and up into the +y half-plane, and lookAt follows the configured handedness; recompose(decompose(M)) == M over rotation set x scales x translations x skews x perspective kinds with every quaternion-extraction branch reached. Also under GLM_FORCE_QUAT_DATA_WXYZ (decompose writes the quaternion by index) and with aligned SIMD types.',
    rule='M(36 base matrices) x VEC3L(378) x 80 axes x 133 (805) angles x shear grids; 3.39M (31M) TRS compositions; invalid lookAt frames skipped (trivial).'),
  'C10': dict(src='drivers/c10.cpp', level='exploration', configs=['default', 'intr_sse2_defaligned', 'intr_avx2_defaligned'], configs_quick=['default', 'intr_sse2_defaligned'],
    technique='exhaustive enumeration of complete small-integer matrix grids ({-2..2}^4, {-2..2}^9, {0,1}^16 / {-1,0,1}^16 / {-1,0,1,2}^16) and scaled / near-singular families, against an exact __int128 adjugate/determinant reference with the condition number computed exactly',
-   text='determinant (Leibniz, multiplicativity, transpose invariance), inverse (both residuals bounded by c.N.u.cond, exact for unimodular integer matrices), inverseTranspose, affineInverse, operator/ (mat/mat, mat/vec, vec/mat), gtx adjugate/diagonal*/qr/rq/matrix_query, integer determinant. By multilinearity a full {0,1}/{-1,0,1} grid is a complete identity test of the cofactor polynomials.',
+   text='determinant (Leibniz, multiplicativity, transpose invariance), inverse (both residuals bounded by c.N.u.cond, exact for unimodular integer matrices), inverseTranspose, affineInverse, operator/ (mat/mat, mat/vec, vec/mat), gtx adjugate/diagonal*/qr/rq/matrix_query, integer determinant. By multilinearity a full {0,1}/{-1,0,1} grid is a complete identity test of the cofactor polynomials. M /= M (divisor aliasing the dividend) against M / M and the identity; aligned SIMD matrices (SSE2, AVX2) as further configurations.',
    rule='SMALLMAT grids complete; scaled copies 2^k; near-singular M0 + 2^-p E_ij; matrices beyond the stated condition bound get the determinant check only.'),
  'C12': dict(src='drivers/c12.cpp', level='exploration', configs=['default', 'intr_sse2_defaligned', 'intr_avx2_defaligned'],
    technique='exhaustive enumeration of vector lattices ({-2..2}^L, tagged vectors, 2^+-20 scalings, unit-vector angle ladders, nearly-degenerate pairs, critical refraction ratios and both float neighbours) for L=1..4 and the scalar overloads, against long-double definitions',
-   text='dot, length, distance, cross (determinant formula, orthogonality, anti-commutativity), normalize, reflect (formula, length preservation, involution), refract (Snell, exactly zero on total internal reflection, branch decided exactly where k is exactly computable), faceforward (sign decided exactly where certain), gtx norm/projection/perpendicular/orthonormalize/vector_angle/closest_point/normal/mixed_product, float and double.',
+   text='dot, length, distance, cross (determinant formula, orthogonality, anti-commutativity), normalize, reflect (formula, length preservation, involution), refract (Snell, exactly zero on total internal reflection, branch decided exactly where k is exactly computable), faceforward (sign decided exactly where certain), gtx norm/projection/perpendicular/orthonormalize/vector_angle/closest_point/normal/mixed_product, float and double. Also with aligned SIMD vector types (SSE2, AVX2): the same long-double oracle decides the SIMD geometric kernels.',
    rule='VSET^2, NEAR pairs, UNIT^2 x ETA, FFSPEC; degenerate inputs (zero vectors, parallel pairs where the function is undefined) skipped as trivial.'),
  'C13': dict(src='drivers/c13.cpp', level='exploration', configs=['default', 'quat_ctor_xyzw', 'intr_sse2_defaligned', 'intr_avx2_defaligned_wxyz'],
    technique='exhaustive enumeration of quaternion pairs (rotation table x axes x a separation ladder from 1e-9 to pi-1e-9 that hits every float on both sides of the linear-fallback switch and of cos=0, both signs) x interpolation factors x spin counts, against the great-circle point evaluated in long double',
-   text='slerp (end points, unit norm, on the arc, shorter arc, angular position t.Omega, never NaN, symmetry), mix (oriented arc, conditioning-aware), slerp with spins, lerp, shortMix, fastMix, squad, dual-quaternion lerp; both sides of every code branch counted.',
+   text='slerp (end points, unit norm, on the arc, shorter arc, angular position t.Omega, never NaN, symmetry), mix (oriented arc, conditioning-aware), slerp with spins, lerp, shortMix, fastMix, squad, dual-quaternion lerp; both sides of every code branch counted. Also with aligned SIMD quaternions (SSE2; AVX2 with WXYZ).',
    rule='PAIRS (42 336 quick / 397 488 thorough) + ROT^2 x t13 (x k=-3..3); cases beyond the stated separation for mix/fastMix are trivial.'),
  'C19': dict(src='drivers/c19.cpp', level='exploration', configs=['default', 'intr_sse2_defaligned', 'intr_avx2_defaligned'], configs_quick=['default', 'intr_sse2_defaligned'],
    technique='exhaustive enumeration of all 2^24 8-bit RGB triples (and 16-bit lattices) through the integer YCoCg-R pair on every carrier type, of consecutive-float pairs on dense grids (all floats of [0,1] in the thorough tier) through the sRGB pair for five gammas, and of the 8-bit RGB cube / hue grids through HSV',
-   text='rgb2YCoCgR/YCoCgR2rgb exactly lossless on all 2^24 triples for u8,i16,u16,i32,u32,i64 carriers; sRGB pair: range, fixes 0 and 1, monotone between adjacent grid points, mutual inverse within the bound derived from the curve constants, alpha bits untouched; HSV: hue in [0,360), round trips both ways; float YCoCg round trips; saturation/luminosity weights.',
+   text='rgb2YCoCgR/YCoCgR2rgb exactly lossless on all 2^24 triples for u8,i16,u16,i32,u32,i64 carriers; sRGB pair: range, fixes 0 and 1, monotone between adjacent grid points, mutual inverse within the bound derived from the curve constants, alpha bits untouched; HSV: hue in [0,360), round trips both ways; float YCoCg round trips; saturation/luminosity weights. The sRGB pair is also instantiated for mediump and lowp (except the deliberate lowp vec3<float> approximation); aligned SIMD vector types as a further configuration.',
    rule='ALL 2^24 triples; grids k/16384 + toe k/262144 + both breakpoints +-2ulp (thorough: every consecutive float pair in [0,1]); hue 360k/3600 + sector boundaries +-2ulp.'),
  'C01': dict(src='drivers/c01.cpp', level='exploration', parts=15, flags=['-O1'], configs=['default', 'clang', 'intr_sse2_defaligned', 'intr_avx2_defaligned'], configs_quick=['default', 'intr_sse2_defaligned'],   # *_defaligned: highp/mediump/lowp name the aligned qualifiers, i.e. the SIMD kernels are compared with the scalar overloads
   
    technique='exhaustive enumeration of the alphabet (component-wise function or operator) x (overload shape) x (vector length 1-4) x (element type) x (qualifier) with complete products of a special-value lattice as inputs, every tuple placed in every lane; oracle = the scalar overload of GLM itself on each component',
-   text='Every component-wise function and operator of common/exponential/trigonometric/integer/vector_relational and their ext/gtc/gtx twins is instantiated for every length 1-4, highp/mediump/lowp and every element type it accepts (float, double, int, uint, i8, u8, i16, u16, i64, u64, bool), in every overload shape (vec-vec, vec-scalar, scalar-vec, vec-vec1, vec1-vec, scalar-edge forms, out-parameter forms, compound assignment, ++/--), and evaluated on the complete n-ary product of the special-value lattice; component i of the vector result is compared with the scalar overload on component i (identical bits for selection/rounding/comparison/integer/single-libm-call functions, value equality for arithmetic operators, rounding tolerance for mix/smoothstep/mod/fma, 2^-8 relative for lowp inversesqrt). Matrix abs/mix/equal on all nine shapes.',
+   text='Every component-wise function and operator of common/exponential/trigonometric/integer/vector_relational and their ext/gtc/gtx twins is instantiated for every length 1-4, highp/mediump/lowp and every element type it accepts (float, double, int, uint, i8, u8, i16, u16, i64, u64, bool), in every overload shape (vec-vec, vec-scalar, scalar-vec, vec-vec1, vec1-vec, scalar-edge forms, out-parameter forms, compound assignment, ++/--), and evaluated on the complete n-ary product of the special-value lattice; component i of the vector result is compared with the scalar overload on component i (identical bits for selection/rounding/comparison/integer/single-libm-call functions, value equality for arithmetic operators, rounding tolerance for mix/smoothstep/mod/fma, 2^-8 relative for lowp inversesqrt). Matrix abs/mix/equal on all nine shapes. Also run with the aligned qualifiers (GLM_FORCE_DEFAULT_ALIGNED_GENTYPES + intrinsics: the SIMD kernels against the scalar overloads, lowp kernels within 2^-8 on operands in the estimates domain), with compound assignments whose right-hand side aliases the vector or one of its components; the thorough tier enlarges the lattices (all 256 values of 8-bit types) and adds clang and AVX2.',
    rule='thorough tier: the lattices grow to ~430 float / ~470 double values (every 8th binade edge with 4 mantissa patterns, ties k+0.5, decimal and trigonometric constants), ALL 256 values of the 8-bit types (binary operations complete: 65536 pairs), ~250-420 patterns for 16/32/64-bit integers, ternary operations on the first 173 (119 for integers) values cubed, two compilers. quick tier: VALUES<T>: 77 float / 80 double special values (+-0, subnormals, ties, 2^23, 2^24, 2^31, max, inf, quiet and signalling NaN ...), 23 integer patterns per width (0, 1, extremes, alternating and run patterns); unary ops sweep VALUES, binary VALUES^2, ternary VALUES^3; lane k of a vector receives the tuple at rotated indices so neighbouring lanes always hold different tuples. Non-trivial = tuple inside the operator domain (no signed overflow, no division by zero, shift count < width).'),
  'C02': dict(src='drivers/c02.cpp', level='model_checking', mc=mc_c02, parts=7, quick_parts=[0, 1, 2], flags=['-O1'], configs=['default', 'intr_sse2_defaligned', 'intr_avx2_defaligned', 'clang'], configs_quick=['default', 'intr_sse2_defaligned'],
    technique='exhaustive enumeration of operand lattices that are complete for bilinear index errors (TAG, DEV_2 over base 0, DEV_1 over TAG) for all 27 products / 9 shapes / 81 conversions, plus breadth-first exploration of all operation sequences up to a depth over a 12-operation alphabet, each replayed on the real matrix objects and on a plain-array reference model',
-   text='Stateless part: every shape x compatible operand shape x element type is evaluated on all operand tuples differing from zero in at most two entries (five non-zero values each), on distinct-prime tagged operands and their single-entry deviations; by bilinearity this exposes every wrong, missing, duplicated or mis-signed product term. Explicit-state part: all sequences (depth 2 quick, 3-4 thorough) of compound assignments, ++/--, negation, self-multiplication (aliasing) and transpose from three start matrices per shape, states = value vectors, every transition validated against the array model.',
+   text='Stateless part: every shape x compatible operand shape x element type is evaluated on all operand tuples differing from zero in at most two entries (five non-zero values each), on distinct-prime tagged operands and their single-entry deviations; by bilinearity this exposes every wrong, missing, duplicated or mis-signed product term. Explicit-state part: all sequences (depth 2 quick, 3-4 thorough) of compound assignments, ++/--, negation, self-multiplication (aliasing) and transpose from three start matrices per shape, states = value vectors, every transition validated against the array model. Float/double lattices are also run with inexact entries (e/7): products within (K+2)u sum|terms| of the exact sum of the stored operands, single-rounding operators bit-exact; aligned SIMD matrix types (SSE2, AVX2) and clang as further configurations.',
    rule='float/double additionally with every entry divided by 7 (inexact): products and sums within (K+2) u sum|terms| of the exact sum of the stored operands, single-rounding operators bit-exact; configurations: default, aligned SIMD types (SSE2, AVX2), clang. per op: TAG + DEV_2(0,{-2,-1,1,2,3}) + DEV_1(TAG,{0,-p}) over the combined entry list of the operands (thorough adds a DEV_3 sub-lattice for <=18 entries and element types uint, i8, i16, i64); sequences: all words over the 12-op alphabet up to the depth from 3 start matrices; a sequence whose exact result leaves the exactly-representable range is cut (counted trivial).'),
  'C06': dict(src='drivers/c06.cpp', level='exploration', configs=['default', 'intr_sse2_defaligned', 'intr_avx2_defaligned'], configs_quick=['default', 'intr_sse2_defaligned'],
    technique='exhaustive enumeration of every code of every field of every pack format (all 2^2..2^16 codes per field, three companion patterns) and of structured float lattices (all 2^32 floats for the scalar pack functions, thorough) through pack/unpack, against a per-format reference decoder',
@@ -388,21 +388,21 @@ PROPS = {
  'C14': dict(src='drivers/c14.cpp', level='model_checking', mc=mc_c14, configs=['default', 'cxx98', 'clang'], configs_quick=['default', 'cxx98'],   # cxx98: the bundled nextafter / pre-C++11 branches of gtc/ulp
   
    technique='explicit-state exploration of the float successor graph: every state (all 2^32 float patterns in the thorough tier) has its nextFloat and prevFloat transitions executed on the implementation and checked against integer arithmetic on the IEEE total order',
-   text='States are float bit patterns, transitions are nextFloat/prevFloat; each transition is executed on the real code and validated against the reference model (ordered-integer successor), with the invariants prev(next(x))=x, strict monotonicity and distance 1. Thorough visits all 2^32 float states (2^33 transitions); n-step overloads, floatDistance and ULP/epsilon comparisons (scalar, vec1-4, six matrix shapes, quaternion) are explored on lattices that contain every binade edge, both zeros, subnormals and chains crossing zero.',
+   text='States are float bit patterns, transitions are nextFloat/prevFloat; each transition is executed on the real code and validated against the reference model (ordered-integer successor), with the invariants prev(next(x))=x, strict monotonicity and distance 1. Thorough visits all 2^32 float states (2^33 transitions); n-step overloads, floatDistance and ULP/epsilon comparisons (scalar, vec1-4, six matrix shapes, quaternion) are explored on lattices that contain every binade edge, both zeros, subnormals and chains crossing zero. Also under GLM_FORCE_CXX98 (the bundled nextafter and the pre-C++11 branches of gtc/ulp) and, thorough, clang.',
    rule='states: F32_ALL (thorough) / F32_EDGE (quick), F64_EDGE; n-step: states x n in {0,1,2,3,7,64} incl. +-0..79 ulp around zero; ULP comparisons: state x distance {0..4,7,8,63,64,65} x {up,down} x maxULPs {0,1,2,4,64}; epsilon comparisons: SPEC^2 x 10 epsilons. Non-trivial = finite state whose targets stay finite.'),
  'C11': dict(src='drivers/c11.cpp', level='exploration', libs=['-lquadmath'], configs=['default', 'intr_sse2_defaligned', 'intr_avx2_defaligned'], configs_quick=['default', 'intr_sse2_defaligned'],
    technique='exhaustive enumeration of all 2^32 float bit patterns through every unary common function (thorough; structured 6.6e5-point lattice + all ties quick), complete special-value products for n-ary functions, every constant against __float128',
-   text='Unary functions (floor ceil trunc round roundEven fract abs sign isnan isinf frexp/ldexp modf iround uround texcoord wraps, bit casts) are decided for every float bit pattern in the thorough tier and on a lattice containing every binade edge, tie and special value in the quick tier; doubles on the analogous lattice; n-ary functions (min max step fmin fmax mod clamp fclamp mix smoothstep fma, 3-/4-operand forms) on the complete product of a ~77-value special lattice; all 31 constants x {float,double} compared bit-for-bit with quad-precision evaluations.',
+   text='Unary functions (floor ceil trunc round roundEven fract abs sign isnan isinf frexp/ldexp modf iround uround texcoord wraps, bit casts) are decided for every float bit pattern in the thorough tier and on a lattice containing every binade edge, tie and special value in the quick tier; doubles on the analogous lattice; n-ary functions (min max step fmin fmax mod clamp fclamp mix smoothstep fma, 3-/4-operand forms) on the complete product of a ~77-value special lattice; all 31 constants x {float,double} compared bit-for-bit with quad-precision evaluations. The vec4/vec3/vec2 overloads of every unary function are evaluated on (x,-x,x,x) and each lane is held to the same definition; with GLM_FORCE_DEFAULT_ALIGNED_GENTYPES + intrinsics (SSE2; AVX2 in the thorough tier) these lanes are the SIMD kernels, which are thereby decided on every float of the sweep.',
    rule='F32_ALL (2^32 patterns, thorough) / F32_EDGE + F32_TIES (quick); F64_EDGE(+ties beyond 2^31..2^51); F32_SPEC^2, ^3 and a 21-value sublist ^4, same for double. Non-trivial = input inside the function domain (finite for fract/frexp/texcoords, non-negative representable for iround/uround, no signalling NaN for fmin/fmax); distinct by construction.'),
  'C18': dict(src='drivers/c18.cpp', level='exploration', configs=['default', 'intr_avx2'],   # intr_avx2: the SIMD interleave kernels of glm/simd/integer.h
   
    technique='exhaustive enumeration of all 8/16-bit values x all multiples / shift counts / bit counts (and all 2^32 16-bit interleave pairs, thorough) on the real functions against loop-based reference definitions',
-   text='Power-of-two family, multiples, findNSB, mask/fill/rotate are decided completely for 8-bit types (every value x every multiple 1..127/255, every shift, every (first,count)) and for all 16-bit values against a set of multiples; 32/64-bit types over boundary lattices; bitfieldInterleave/Deinterleave completely for 8-bit pairs and (thorough) all 2^32 16-bit pairs; gtx integer sqrt/nlz/log2 over all 2^32 ints (thorough).',
+   text='Power-of-two family, multiples, findNSB, mask/fill/rotate are decided completely for 8-bit types (every value x every multiple 1..127/255, every shift, every (first,count)) and for all 16-bit values against a set of multiples; 32/64-bit types over boundary lattices; bitfieldInterleave/Deinterleave completely for 8-bit pairs and (thorough) all 2^32 16-bit pairs; gtx integer sqrt/nlz/log2 over all 2^32 ints (thorough). gtx mod(int,int) for both signs of the divisor against x - y floor(x/y).',
    rule='INT8_ALL/INT16_ALL complete, INT32_EDGE/INT64_EDGE lattices (0, +-2^k, +-2^k+-1, runs of ones, complements, patterns) crossed with complete small parameter ranges (multiples, shift 0..w-1, n 1..w+1, OFFBITS). Power-of-two family restricted to x>0 and representable results, multiples to m>=1 and representable results (statement domain); skipped cases are counted as trivial. Float multiples: x=k/4 (k=-200..200) x 9 exactly representable m, all arithmetic exact.'),
  'C05': dict(src='drivers/c05.cpp', level='exploration', configs=['default', 'intr_avx2'],   # intr_avx2: the popcnt / SIMD code paths of func_integer_simd.inl
   
    technique='exhaustive enumeration of every 8- and 16-bit value (and, thorough, all 2^32 32-bit values) x every legal (offset,bits) pair on the real functions, compared with a bit-at-a-time reference model',
-   text='bitCount/findLSB/findMSB/bitfieldReverse/bitfieldExtract are decided completely for 8- and 16-bit types (and for 32-bit unary functions in the thorough tier), signed and unsigned, scalar and vec1-4; bitfieldInsert completely for 8-bit and over structured lattices x all (offset,bits) otherwise; 64-bit types and the two-operand 32-bit carry/borrow/extended-multiply functions over boundary lattices (stated as such in evidence).',
+   text='bitCount/findLSB/findMSB/bitfieldReverse/bitfieldExtract are decided completely for 8- and 16-bit types (and for 32-bit unary functions in the thorough tier), signed and unsigned, scalar and vec1-4; bitfieldInsert completely for 8-bit and over structured lattices x all (offset,bits) otherwise; 64-bit types and the two-operand 32-bit carry/borrow/extended-multiply functions over boundary lattices (stated as such in evidence). The carry/borrow/extended-multiply functions are also called with their output objects aliasing an operand (GLSL copies in-arguments at the call).',
    rule='values: INT8_ALL / INT16_ALL complete, INT32_ALL complete (thorough, unary ops) else INT32_EDGE/INT64_EDGE (0, +-2^k, +-2^k+-1, all runs of ones, complements, periodic patterns); (offset,bits): OFFBITS(w) = every pair with offset+bits <= w; vector overloads receive x and three derived companions (~x, rotl3(x), multiplicative hash) in lanes 0..3. Non-trivial = every enumerated case (no precondition rejects any); distinct by construction of the domains.'),
  'C07': dict(src='drivers/c07.cpp', level='exploration',
    technique='exhaustive enumeration of all 2^16 half and all 2^32 float bit patterns on the real conversion code against a bit-level reference model (cross-checked with F16C hardware)',
